@@ -225,3 +225,84 @@ func HarnessReusedChannelID() {
 	verif.Quiesce()
 	verif.Reach("reused-channel-id-done")
 }
+
+func chValU(id uint64, v int64) []byte {
+	b, _ := json.Marshal(map[string]interface{}{"jsonrpc": "2.0", "method": "xrpc.ch.val", "params": []interface{}{id, v}})
+	return b
+}
+
+func chCloseU(id uint64) []byte {
+	b, _ := json.Marshal(map[string]interface{}{"jsonrpc": "2.0", "method": "xrpc.ch.close", "params": []interface{}{id}})
+	return b
+}
+
+// HarnessForeignChannelIDs: the channel id is whatever unsigned 64-bit number the
+// peer announces (the bundled server counts from 1, other peers need not). Two
+// subscriptions with arbitrary distinct ids stay separate: each receives exactly
+// the values sent on its id, and closes when its own close notification arrives.
+func HarnessForeignChannelIDs() {
+	idA, idB := verif.Uint64("idA"), verif.Uint64("idB")
+	verif.Assume(idA != idB && idA < 1<<63 && idB < 1<<63)
+	l := verif.ListenWS()
+	go func() {
+		verif.Daemon()
+		pc := l.Accept()
+		n := 0
+		for {
+			b, ok := pc.Recv()
+			if !ok {
+				return
+			}
+			var r wireReq
+			if json.Unmarshal(b, &r) != nil || r.Method != "NS.Sub" {
+				continue
+			}
+			id := idA
+			if n == 1 {
+				id = idB
+			}
+			n++
+			rb, _ := json.Marshal(map[string]interface{}{"jsonrpc": "2.0", "id": r.ID, "result": id})
+			pc.Send(rb)
+			if n == 2 {
+				verif.Quiesce2()
+				pc.Send(chValU(idB, 21))
+				pc.Send(chValU(idA, 11))
+				pc.Send(chCloseU(idA))
+				pc.Send(chValU(idB, 22))
+			}
+		}
+	}()
+	var c C
+	closer, err := jsonrpc.NewMergeClient(context.Background(), l.URL(), "NS", []interface{}{&c}, nil, jsonrpc.WithNoReconnect())
+	verif.Assert(err == nil, "client-created")
+	chA, errA := c.Sub(context.Background())
+	verif.Assert(errA == nil && chA != nil, "subscribe-a")
+	chB, errB := c.Sub(context.Background())
+	verif.Assert(errB == nil && chB != nil, "subscribe-b")
+	var gotA, gotB []int64
+	closedA, closedB := 0, 0
+	go func() {
+		for v := range chA {
+			gotA = append(gotA, v)
+		}
+		closedA++
+	}()
+	go func() {
+		for v := range chB {
+			gotB = append(gotB, v)
+		}
+		closedB++
+	}()
+	verif.Quiesce()
+	verif.Release2()
+	verif.Quiesce()
+	verif.Assert(len(gotA) == 1 && gotA[0] == 11, "first-subscription-receives-exactly-its-values")
+	verif.Assert(closedA == 1, "first-subscription-closed-by-its-close-notification")
+	verif.Assert(len(gotB) == 2 && gotB[0] == 21 && gotB[1] == 22, "second-subscription-receives-exactly-its-values")
+	verif.Assert(closedB == 0, "second-subscription-stays-open")
+	closer()
+	verif.Quiesce()
+	verif.Assert(closedB == 1, "second-subscription-closed-by-client-close")
+	verif.Reach("foreign-channel-ids-done")
+}
